@@ -315,6 +315,11 @@ def case_posterior(B, cfg):
                     B.assume(v > 0)
     times = cfg['times']
     ns = cfg['n_samples']
+    if 'first' in cfg:
+        # the same model was sampled for another individual before: only the
+        # individual of *this* call counts
+        ppm.sample(times, n_samples=1, individual=cfg['first'], seed=9)
+        rng = B.new_rng()
     df = ppm.sample(times, n_samples=ns, individual=ind, seed=2)
     want_ind = ind if ind is not None else ids[0]
     st = sorted(times)
@@ -493,6 +498,11 @@ def jobs(tier):
                     n_chains=nc, n_draws=nd, individual=ind, n_samples=2 if
                     nc * nd <= 4 else 1, times=[2.5, 1.0],
                     pooled_sigma=pooled), F))
+    for first, ind in (('ID b', 'ID a'), ('ID b', None), (None, 'ID b'),
+                       ('ID a', 'ID b')):
+        out.append(('posterior', 'case_posterior', dict(
+            n_chains=1, n_draws=2, individual=ind, first=first, n_samples=1,
+            times=[2.5, 1.0], pooled_sigma=False), F))
     for ns in (1, 2):
         for seed in (None, 7):
             out.append(('prior', 'case_prior', dict(
